@@ -145,6 +145,23 @@ func Up(chain []*ssa.Call, v ssa.Value) (ssa.Value, []*ssa.Call) {
 	return v, chain
 }
 
+// UpFrom is Up for a value of any function on the chain (not only the
+// innermost): the chain is first cut back to the call that entered v's
+// function.
+func UpFrom(chain []*ssa.Call, v ssa.Value) (ssa.Value, []*ssa.Call) {
+	par := Unwrap(v).Parent()
+	if par == nil {
+		return v, chain
+	}
+	for k := len(chain); k > 0; k-- {
+		g := chain[k-1].Call.StaticCallee()
+		if g != nil && (g == par || Origin(g) == par) {
+			return Up(chain[:k], v)
+		}
+	}
+	return v, nil // a value of the root function (or of none on the chain)
+}
+
 // UpRoot translates v all the way (as far as it is a parameter chain).
 func (s Site) UpRoot(v ssa.Value) ssa.Value {
 	r, _ := Up(s.Chain, v)
